@@ -54,6 +54,34 @@ add('C04', 'exploration',
     'DESIGN.md 3 C04', 'Oracle ref/sighash.py validated on the BIP143 example vectors shipped in the repository tests.',
     'bounded exhaustive enumeration (deviation-bounded product) against a reference model')
 
+add('C08', 'exploration',
+    'Exhaustive over short inputs: number codec on every integer in [-70000,70000] and 2^k+-1 (k<=80) and on every byte string '
+    'of length <=2 (quick) / <=3 (thorough); builder on all token sequences of length <=2 (<=3) over 177 opcodes, 45 integers, '
+    '34 byte strings (incl. 64 KiB) with list()/rebuild round trip; raw iteration, cooked iteration, nine predicates and both '
+    'sig-op counts on every byte string of length <=2 (<=3), a 48-byte alphabet at length 3 (4), a push-boundary family and a '
+    'length-structured family for the witness/P2SH predicates.',
+    'DESIGN.md 3 C08', 'Oracle ref/script.py (tokenizer is prefix-consistent by self-test; codec validated on literal vectors).',
+    'bounded exhaustive enumeration (all short byte strings / token sequences) against a reference model')
+
+add('C10', 'fault_enumeration',
+    'Every byte string of length <=2 (<=3 thorough) and leading-zero families up to 300 bytes through encode/decode; every '
+    'alphabet string of length <=3 (<=4) through decode/encode; strings with characters outside the alphabet at every position; '
+    'every version 0..255 x payload length 0..40,64,255 through Base58Check; every single substitution, deletion, insertion and '
+    'truncation of 20 valid Base58Check strings (and every double substitution of one in thorough) judged by the reference '
+    'checksum rule; every decoding shorter than 5 bytes.',
+    'DESIGN.md 3 C10', 'Oracle ref/base58.py (big-integer definition; bijection self-test).',
+    'exhaustive single-fault enumeration + exhaustive short-input enumeration against a reference model')
+
+add('C11', 'fault_enumeration',
+    'Encode/decode over 9 prefixes (incl. the 90-character limit) x versions 0..17 x every program length 1..41 and all one-hot '
+    'programs; all strings with a valid checksum over every version symbol x payload length 0..66 x every last symbol (padding, '
+    'length, version rules on both sides); every single substitution/deletion/insertion/truncation/case flip of 6 addresses; '
+    'every double substitution in the data part (2 addresses quick, 6 thorough); every triple (and quadruple in thorough) '
+    'position set over 3 alternatives; every burst of 3 (4) adjacent symbols over all alternatives.',
+    'DESIGN.md 3 C11', 'Oracle ref/bech32.py: checksum as a polynomial remainder over GF(32) (independent of the library\'s polymod), '
+    'validated on the BIP173 vectors; for multi-substitution families the linear syndrome decides checksum validity.',
+    'exhaustive single/double fault enumeration (plus bounded multi-fault families) against a reference model')
+
 NOT_YET = 'check not yet built in this revision of /verif (planned, see DESIGN.md section 3)'
 
 
